@@ -1507,3 +1507,23 @@ def _panic(I, f, a):
 def _eyre(I, f, a):
     I.run.event("err_constructed", I.where())
     return Opaque("eyre::Report")
+
+
+@model("<bool as std::default::Default>::default")
+def _bool_default(I, f, a):
+    return False
+
+
+for _t in ("usize", "u8", "u16", "u32", "u64", "i32", "i64", "isize"):
+    MODELS["<%s as std::default::Default>::default" % _t] = lambda I, f, a: 0
+MODELS["<f64 as std::default::Default>::default"] = lambda I, f, a: 0.0
+
+
+@model("<std::option::Option<T> as std::default::Default>::default")
+def _opt_default(I, f, a):
+    return none()
+
+
+@model("<std::string::String as std::default::Default>::default")
+def _string_default(I, f, a):
+    return Bytes([], is_str=True)
